@@ -4,7 +4,7 @@
     [rsum f n] = f 0 + ... + f (n-1); [dlt] = Kronecker delta; [ment M i j] = entry (i,j) of a list-of-rows matrix.
     All statements are over the reals, for every dimension. *)
 From Coq Require Import Reals List.
-From LP Require Import Num NumR C15_Model C15_Proofs C15_Proofs_QR.
+From LP Require Import Num NumR C15_Model C15_Proofs C15_Proofs_QR C15_Proofs_Scale.
 Import ListNotations.
 Local Open Scope R_scope.
 
@@ -199,3 +199,14 @@ Proof.
         (conj (wf1_single 2) (conj (nonsing1_single 2 two_neq_0) (eigenvalues_1x1 2 two_neq_0))))))).
 Qed.
 Print Assumptions C15_qr_hypotheses_satisfiable.
+
+(** ** "to rounding" is meant relative to the matrix: over the reals the Householder construction does not see the overall
+    scale at all — Householder_Matrix(c M) = Householder_Matrix(M) for every c > 0 (alpha, x - alpha e1 and its length scale by c).
+    The check therefore evaluates every clause on M / 2^e, and a result that changes with the scale of the input (squares that
+    leave the range of the doubles, an absolute tolerance) is a violation, not a convention. *)
+Theorem C15_householder_scale_free (m : list (list R)) (c : R) : 0 < c ->
+  (exists k, (k < length (mcol ROps m 0))%nat /\ nth k (mcol ROps m 0) 0 <> 0) ->
+  forall i j, (i < length (mcol ROps m 0))%nat -> (j < length (mcol ROps m 0))%nat ->
+  ment ROps (householder ROps (mscale c m)) i j = ment ROps (householder ROps m) i j.
+Proof. exact (householder_scale_free m c). Qed.
+Print Assumptions C15_householder_scale_free.
